@@ -22,6 +22,7 @@ def main():
         seed = 0
     if a.tier not in ('quick', 'thorough'):
         a.tier = 'quick'
+    os.environ['VERIF_TIER'] = a.tier
     if a.replay:
         return replay(a.pid, a.replay)
     ctx = Ctx(a.pid, a.tier, seed)
